@@ -50,10 +50,12 @@ func init() {
 		{"urlquery", enumURLQuery, checkURLQuery},
 		{"url", enumURL, checkURL},
 		{"radix", enumRadix, checkRadix},
-		{"json", enumJSON, checkJSON},
 		{"xml", enumXML, checkXML},
 		{"csv", enumCSV, checkCSV},
 		{"malformed", enumMalformed, checkMalformed},
+		// the serialiser section is by far the most expensive one (every from_* decode costs
+		// ~1.5 ms in fq); it runs last so that a deadline can only cut this section
+		{"json", enumJSON, checkJSON},
 	}
 }
 
